@@ -2,7 +2,7 @@
 ENTRY = {'coq_dir': 'C19',
  'harness': 'c19',
  'coq_deps': ['C18', 'C03'],
- 'cases': {'quick': 14000, 'thorough': 350000},
+ 'cases': {'quick': 13000, 'thorough': 330000},
  'harness_timeout': 3000,
  'consts': ['C19_KAD_MAX_ADDRESSES', 'C19_KAD_DEFAULT_MAX_MESSAGE_SIZE', 'C19_IDENTIFY_PAYLOAD_SIZE',
             'C19_BITSWAP_MAX_MESSAGE_SIZE', 'C03_MAX_PROTOCOLS', 'C03_MAX_LEN_BYTES', 'REPLICATION_FACTOR',
@@ -16,6 +16,11 @@ ENTRY = {'coq_dir': 'C19',
          'replaced by 0/1/127/128/2^14/2^32-1/2^63/2^64-1; unknown-group and nested-message depth bombs of depth '
          '1/50/98..102/500 at top level and inside Peer / Wantlist.Entry / NoiseExtensions; ls responses of 999/1000/1001 protocols; '
          'every extreme frame length in natural, 9-, 10- and 11-byte form under limits {64, 70 KiB} with and without data behind it; '
+         'message-based multistream payloads (webrtc_listener_negotiate with header_received in {false,true}, WebRtcDialerState::register_response '
+         'in one or two payloads) whose first message, or second message after a valid header, declares every extreme length incl. '
+         'usize::MAX-k for k in 0..16 (natural and 10-byte form, body kept or dropped), and every truncation of header+proposal / '
+         'proposal / header+na; ls responses with every extreme entry length; the extreme set everywhere is '
+         '0/1/127/128/2^14/2^32-1/2^63/2^64-1 plus 2^64-1-k, k in 1..15; '
          '(iii) seeded random cases from protobuf-aware tree generators (Kademlia Message/Record/Peer with valid and invalid peer ids, '
          'valid/invalid/foreign-/p2p multiaddresses, 31..65 addresses per peer, 18-30 peers, connection types out of range; keys.proto; '
          'noise payload with extensions; identify; bitswap wantlist/blocks/payload prefixes/presences) mutated at tree level (duplicate, '
@@ -24,7 +29,7 @@ ENTRY = {'coq_dir': 'C19',
          'truncation, extreme varint overwrite, self-splice), multistream messages, varint-framed streams under limits {64, 1024, 70 KiB}, '
          'prefix / peer-id / multiaddress strings, and round trips of VALUES through the library encoders (the nine KademliaMessage '
          'constructors, multistream Message::encode of all five kinds, PublicKey::to_protobuf_encoding, prost encode of identify / bitswap '
-         '/ noise payload, Prefix::to_bytes, the Substream sink). Mix: 28% Kademlia, 12% multistream, 10% frames, 3% read_payload_size, '
+         '/ noise payload, Prefix::to_bytes, the Substream sink). Mix: 28% Kademlia, 8% multistream Message, 4% message-based multistream (listener/dialer), 10% frames, 3% read_payload_size, '
          '5% keys, 5% noise, 10% identify, 10% bitswap, 3% prefix, 2% peer id, 3% multiaddr, 9% round trips. Trace = status, allocation '
          'verdict (bound if peak <= bound else the peak), capped collection size, canonical dump of the RAW prost struct (via the '
          're-exported generated types) and of the post-processed result; compared with the extracted Coq model. prop_ok judges the '
@@ -63,15 +68,17 @@ ENTRY = {'coq_dir': 'C19',
                'stream (the check precedes the allocation), frames come out of the stream, send-then-receive is the identity; '
                'read_payload_size returns sizes < 2^64 in 1..10 bytes and inverts the encoder; multistream LengthDelimited never sizes '
                'its buffer above 16383 under any read script; Message::decode yields <= 1000 protocols, materialises <= |input| and its '
-               'loop fuel is irrelevant, and the ls response (Message::Protocols, up to 1000 names) round-trips. Panic-freedom of the Rust code is established by differential testing against these total '
+               'loop fuel is irrelevant, and the ls response (Message::Protocols, up to 1000 names) round-trips; '
+               'decode_multistream_message (C03\'s model, reused) hands Message::decode a slice of the payload, leaves a strictly '
+               'shorter rest, refuses EVERY declared length beyond what is left (no offset arithmetic, so lengths next to 2^64 '
+               'included), register_response\'s loop fuel is irrelevant and the listener\'s reply is within MAX_FRAME_SIZE or the echoed payload. Panic-freedom of the Rust code is established by differential testing against these total '
                'functions (tested, not proved).',
  'level_note': 'Tested only (diffed against "returns, no panic, within the allocation bound", no model of their own): '
                'Multiaddr::try_from, Cid::read_bytes, the curve-point check, multihash digests. Modelled and diffed but tied to the '
                'inline Rust code by transcription: identify address filtering, bitswap wantlist/presence filtering. Not proved: '
                'UTF-8 validation is modelled (table 3-7) without theorems; the numeric allocation constants are measurements. '
                'Left out: the webrtc.proto message, PrivateKey of keys.proto, TLS certificate parsing, yamux / noise frame decoding '
-               '(C02), listener_select/dialer_select state machines and webrtc_listener_negotiate / register_response (C03 runs and '
-               'models them), the Identity(n) codec and re-polling a Substream after an error (C04: panics there are its findings). '
+               '(C02), the stream-based listener_select/dialer_select state machines (C03 runs and models them), the Identity(n) codec and re-polling a Substream after an error (C04: panics there are its findings). '
                'ProtocolCodec::UnsignedVarint(None) has no limit to enforce: the model shows 10 bytes requesting 2^63 bytes '
                '(Example C19_ex_unbounded_without_limit); no built-in protocol uses it and the harness runs it only with tiny lengths. '
                'TTL of a record is re-based on Instant::now() by the encoder, so round trips use records without expiry.',
